@@ -27,7 +27,7 @@ def run(ctx):
     rng = ctx.rng
     ctx.rule = ("real fits with a disconnection threshold at chosen quantiles of the pairwise distances (isolating none / some / most "
                 "samples), integer-lattice data with distances exactly at the threshold, bounded metrics at their default threshold, "
-                "dense / CSR / precomputed inputs, exact and forced-approximate paths, set_op_mix_ratio in {0,.5,1}, plus a weak-edge family (a sample whose edges all lie below max/n_epochs) and a refit-history family (unique=True fit, then unique=False refit of the same estimator): the exact neighbour stage (threshold, argsort, first k, -1 marking) vs the Lean model KnnStage.exactStage on every exact-path fit; (a) no edge at or "
+                "dense / CSR / precomputed inputs, exact and forced-approximate paths, set_op_mix_ratio in {0,.5,1}, plus a supervised family (target_weight = 1 strips every edge of a sample with a unique label), a weak-edge family (a sample whose edges all lie below max/n_epochs) and a refit-history family (unique=True fit, then unique=False refit of the same estimator): the exact neighbour stage (threshold, argsort, first k, -1 marking) vs the Lean model KnnStage.exactStage on every exact-path fit; (a) no edge at or "
                 "beyond the threshold (float64 true distances), (b) NaN row <=> no edge <=> disconnected_vertices, other rows finite, "
                 "(c) transform of all-far / mixed / none-far / exactly-at-threshold batches; graph support vs the Lean model fed with the "
                 "recorded kNN table; non-trivial = at least one isolated and one non-isolated sample")
@@ -52,6 +52,7 @@ def run(ctx):
             X = (rng.random((n, d)) < 0.3).astype(np.float32)
             X[: n // 3, d // 2:] = 0          # two groups with disjoint support: distance exactly 1 across
             X[n // 3:, : d // 2] = 0
+            X[:, -1] = 0                      # a feature no training sample uses: new points supported there are at distance 1 from all
         elif lattice:
             X = rng.integers(0, 9, size=(n, d)).astype(np.float32)
         else:
@@ -60,6 +61,7 @@ def run(ctx):
         if metric in ("jaccard", "cosine") and not lattice and t % 2 == 0:
             thr = None                         # the metric's default (1 for jaccard, 2 for cosine)
             eff = {"jaccard": 1.0, "cosine": 2.0}[metric]
+            r = 1.0                            # keep the training graph connected: NaN rows of new points must come from the cut-off alone
         else:
             q = float(rng.choice([0.02, 0.1, 0.3, 0.8]))
             thr = float(np.quantile(D[D > 0], q)) if not lattice else float(rng.choice([3.0, 5.0, 4.0]))
@@ -187,10 +189,15 @@ def run(ctx):
                     ctx.violation("transform-exception", f"transform({bname}) raised {type(e).__name__}: {e}", dict(case, batch=bname))
                     continue
                 onan = np.isnan(out).all(axis=1)
+                if bname == "none-far" and not nan_row.any() and onan.any():
+                    ctx.violation("transform-near-finite", f"transform({bname}): rows {np.where(onan)[0].tolist()} of points next to connected training "
+                                                           f"samples are NaN", dict(case, batch=bname))
                 if out.shape[0] != len(Y) or np.any(isfar & ~onan):
                     ctx.violation("transform-far-nan", f"transform({bname}): rows {np.where(isfar & ~onan)[0].tolist()} of points beyond "
                                                        f"the threshold are not NaN", dict(case, batch=bname))
                 ctx.bin("transform_batch", bname)
+                if isfar.any():
+                    ctx.bin("transform_far_rows", f"{metric}:{'default' if thr is None else 'explicit'}-threshold:{form}")
         nt = bool(no_edge.any() and (~no_edge).any())
         ctx.case(key=hash(str(case["X"])) ^ hash((metric, form, r, thr)), nontrivial=nt,
                  sample={k_: v for k_, v in case.items() if k_ != "X"} if len(ctx.samples) < 5 else None,
@@ -263,6 +270,33 @@ def run(ctx):
         weak = (~no_edge) & (rowmax < G.max() / ne)
         ctx.case(key="weak" + str(case["X"]) + str((r, ne)), nontrivial=bool(weak.any() and no_edge.any()), part="weak-edge",
                  weak_samples=int(weak.sum()), r=r)
+
+    # supervised family: with target_weight = 1 a sample whose label none of its neighbours shares loses every edge; no threshold
+    # isolates anybody, so only the final graph_ says who is isolated
+    for t in range(6 if ctx.thorough else 2):
+        n = int(rng.integers(40, 70))
+        X, _ = gen.dataset(rng, n, 4, kind="clusters")
+        y = rng.integers(0, 6, n)
+        y[:3] = np.arange(100, 103)                     # three samples with a label nobody else has
+        case = {"family": "supervised", "n": n, "labels": y.tolist(), "X": X.tolist()}
+        try:
+            m = umap.UMAP(n_neighbors=6, target_weight=1.0, n_epochs=11, random_state=5).fit(X, y)
+        except Exception as e:  # noqa
+            ctx.violation("exception", f"supervised fit raised {type(e).__name__}: {e}", case)
+            continue
+        G = m.graph_.tocsr()
+        no_edge = np.array([G[i].nnz == 0 for i in range(n)])
+        nan_row = np.isnan(m.embedding_).all(axis=1)
+        rep = np.asarray(disconnected_vertices(m))
+        if not np.array_equal(no_edge, nan_row):
+            ctx.violation("nan-iff-isolated", f"supervised fit: samples without an edge {np.where(no_edge)[0].tolist()[:10]}, all-NaN rows "
+                                              f"{np.where(nan_row)[0].tolist()[:10]}", case)
+        if not np.array_equal(no_edge, rep):
+            ctx.violation("reported", f"supervised fit: disconnected_vertices reports {np.where(rep)[0].tolist()[:10]}, samples without an edge "
+                                      f"{np.where(no_edge)[0].tolist()[:10]}", case)
+        if np.any(~np.isfinite(m.embedding_[~nan_row])):
+            ctx.violation("finite-rows", "supervised fit: a non-isolated sample has a non-finite coordinate", case)
+        ctx.case(key="sup" + str(case["X"]), nontrivial=bool(no_edge.any() and (~no_edge).any()), part="supervised")
 
     # history family: the same estimator fitted twice with different settings (unique=True on data with duplicates, then
     # unique=False; a threshold, then none): what is reported must describe the *latest* fit
